@@ -21,6 +21,7 @@ fn main() {
     let code = match args.get(1).map(|s| s.as_str()) {
         Some("run") => cmd_run(&args),
         Some("replay") => cmd_replay(&args),
+        Some("miri-run") => cmd_miri_run(&args),
         Some("gen-selftest") => cmd_gen_selftest(&args),
         Some("exp-c06") => cmd_exp_c06(&args),
         Some("c05-debug") => {
@@ -322,5 +323,31 @@ fn cmd_exp_c06(_args: &[String]) -> i32 {
         }
         println!("{name:12} bad {bad}/{total} {first}");
     }
+    0
+}
+
+/// C02, Miri leg: executes small C02 scenarios directly (no watchdog threads); the detector is
+/// Miri itself (UB / data race => abnormal exit). Prints `RUN <seed>` before each scenario so the
+/// supervisor can attribute a report, and a summary line at the end.
+fn cmd_miri_run(args: &[String]) -> i32 {
+    let start: u64 = arg(args, "--start").unwrap_or("0").parse().unwrap();
+    let count: u64 = arg(args, "--count").unwrap_or("4").parse().unwrap();
+    let stride: u64 = arg(args, "--stride").unwrap_or("1").parse().unwrap();
+    let max_run: u64 = arg(args, "--max-run").unwrap_or("2").parse().unwrap();
+    std::panic::set_hook(Box::new(|_| {}));
+    let mut stats = Stats::default();
+    let mut ran = 0u64;
+    let mut i = 0u64;
+    let mut seeds = Vec::new();
+    while i < count && ran < max_run {
+        let seed = start + i * stride;
+        i += 1;
+        let Some(sc) = checks::c02::generate_small(seed) else { continue };
+        println!("RUN {seed} origin={} len={} pool={} wide={}", sc.inner.origin, sc.inner.bytes.len(), sc.inner.pool_threads, sc.inner.force_wide);
+        let _ = checks::c02::execute(seed, &sc, &mut stats);
+        seeds.push(seed);
+        ran += 1;
+    }
+    println!("MIRI-SUMMARY {}", serde_json::json!({"ran": ran, "seeds": seeds, "probes": stats.probes, "faults": stats.faults_fired, "distinct": stats.distinct.len()}));
     0
 }
